@@ -89,8 +89,11 @@ void COSdoEnable(CO_SDO *srv, uint8_t num)
 
     if (((rxId & CO_SDO_ID_OFF) == 0) &&
         ((txId & CO_SDO_ID_OFF) == 0) ) {
-        srvnum->RxId = rxId;
-        srvnum->TxId = txId;
+        /* bit 30 tells how the value was assigned, it is no part
+         * of the CAN identifier
+         */
+        srvnum->RxId = rxId & ~((uint32_t)1u << 30);
+        srvnum->TxId = txId & ~((uint32_t)1u << 30);
     }
 }
 
